@@ -21,6 +21,8 @@ func (g *genState) genRequests(step int, docs map[uuid.UUID]Val) []requestSpec {
 		return g.reqsC04(docs)
 	case "c05":
 		return g.reqsC05(docs)
+	case "c06":
+		return g.reqsC06(docs)
 	}
 	return nil
 }
@@ -368,6 +370,9 @@ func (g *genState) extraObs(env *shardEnv, docs map[uuid.UUID]Val, reqs []reques
 	if g.profile == "c05" {
 		out = append(out, g.extrasC05(docs, reqs)...)
 	}
+	if g.profile == "c06" {
+		out = append(out, g.extrasC05(docs, reqs)...)
+	}
 	if g.profile == "c01" || g.profile == "c10" {
 		if x, err := dumpPoints(env); err == nil {
 			out = append(out, x...)
@@ -684,4 +689,131 @@ func (g *genState) extrasC05(docs map[uuid.UUID]Val, reqs []requestSpec) []strin
 		logs = append(logs, fmt.Sprintf("(%d, %d, %s)", ndocs, df, pN(math.Float64bits(l))))
 	}
 	return []string{"(XTokens " + pList(items) + ")", "(XLogs " + pList(logs) + ")"}
+}
+
+// ---- C06: composite requests
+
+func (g *genState) rankLeaf() (querySpec, bool) {
+	r := g.r
+	var kinds []idxSpec
+	for _, ix := range g.schema {
+		if ix.kind == ixFlat || ix.kind == ixText || ix.kind == ixVamana {
+			kinds = append(kinds, ix)
+		}
+	}
+	if len(kinds) == 0 {
+		return querySpec{}, false
+	}
+	ix := kinds[r.IntN(len(kinds))]
+	var q querySpec
+	switch ix.kind {
+	case ixFlat:
+		q = querySpec{kind: "flat", prop: ix.path, vec: g.genVec(ix.dim), limit: 75}
+	case ixVamana:
+		q = querySpec{kind: "vamana", prop: ix.path, vec: g.genVec(ix.dim), search: 75, limit: 75}
+	case ixText:
+		m := 1 + r.IntN(2)
+		ws := make([]string, m)
+		for i := range ws {
+			ws[i] = g.pick(g.words)
+		}
+		text := strings.Join(ws, " ")
+		toks, err := text_VerifAnalyse(text)
+		if err != nil {
+			return querySpec{}, false
+		}
+		q = querySpec{kind: "text", prop: ix.path, sv: text, terms: toks, op: 8 + r.IntN(2), limit: 75}
+	}
+	if r.IntN(3) > 0 {
+		w := weightPool[r.IntN(len(weightPool))]
+		q.weight = &w
+	}
+	if r.IntN(4) == 0 {
+		if f, ok := g.genFilter(1); ok {
+			q.filter = &f
+		}
+	}
+	return q, true
+}
+
+func (g *genState) genComposite(depth int) (querySpec, bool) {
+	r := g.r
+	if depth == 0 || r.IntN(4) == 0 {
+		if r.IntN(2) == 0 {
+			return g.rankLeaf()
+		}
+		return g.genLeaf()
+	}
+	n := 1 + r.IntN(4)
+	q := querySpec{kind: []string{"and", "or"}[r.IntN(2)]}
+	for i := 0; i < n; i++ {
+		c, ok := g.genComposite(depth - 1)
+		if !ok {
+			return querySpec{}, false
+		}
+		q.subs = append(q.subs, c)
+	}
+	return q, true
+}
+
+func rankingLeaves(q querySpec) []querySpec {
+	switch q.kind {
+	case "and", "or":
+		var out []querySpec
+		for _, c := range q.subs {
+			out = append(out, rankingLeaves(c)...)
+		}
+		return out
+	case "flat", "text", "vamana":
+		return []querySpec{q}
+	}
+	return nil
+}
+
+var selectPool = [][]string{{"*"}, {"i"}, {"s", "i"}, {"nested.n"}, {"nested"}, {"extra"}, {"missing"}, {"nested.n", "nested.deep.s"},
+	{"txt", "i"}, {"fv"}, {"tags"}, {"nested", "nested.n"}, {"nested.n", "nested"}, {"i", "*"}, {"s", "extra", "note", "tags"}}
+
+func (g *genState) reqsC06(docs map[uuid.UUID]Val) []requestSpec {
+	r := g.r
+	var out []requestSpec
+	n := len(docs)
+	for k := 0; k < 7; k++ {
+		q, ok := g.genComposite(2)
+		if !ok {
+			continue
+		}
+		rq := requestSpec{q: q}
+		if r.IntN(3) > 0 {
+			rq.sel = selectPool[r.IntN(len(selectPool))]
+		}
+		if r.IntN(3) == 0 && len(rq.sel) > 0 {
+			// sort keys among the selected paths (with "*" any stored path)
+			cands := rq.sel
+			if rq.sel[0] == "*" || (len(rq.sel) > 1 && rq.sel[1] == "*") {
+				cands = []string{"i", "s", "nested.n", "extra", "note", "missing", "txt", "nested.deep.s", "f"}
+			}
+			m := 1 + r.IntN(3)
+			for j := 0; j < m; j++ {
+				c := cands[r.IntN(len(cands))]
+				if c == "*" {
+					continue
+				}
+				rq.sort = append(rq.sort, sortSpec{prop: c, desc: r.IntN(2) == 0})
+			}
+		}
+		switch r.IntN(3) {
+		case 0:
+			rq.offset = r.IntN(n + 4)
+		case 1:
+			rq.offset = r.IntN(3)
+		}
+		if r.IntN(2) == 0 {
+			rq.limit = 1 + r.IntN(n+2)
+		}
+		out = append(out, rq)
+		for _, leaf := range rankingLeaves(q) {
+			out = append(out, requestSpec{q: leaf})
+		}
+	}
+	return out
 }
